@@ -143,7 +143,7 @@ impl LeafH {
                 });
             }
         }
-        let failing = script.res.0 != 0;
+        let failing = script.res != (0, 0);
         if let Some(mut r) = resp {
             if !failing || script.partial {
                 lib(|| {
@@ -506,7 +506,7 @@ pub fn replay(args: &[String]) -> i32 {
         let ncalls = exp_calls.as_array().unwrap().len();
         let opt = c["opt"].as_bool().unwrap();
         let (lo, hi, eext) = (c["err"]["lo"].as_i64().unwrap(), c["err"]["hi"].as_i64().unwrap(), c["err"]["ext"].as_i64().unwrap());
-        let exp_ok = lo == 0 && hi == 0;
+        let exp_ok = lo == 0 && hi == 0 && eext == 0;     // (0, 0, ext > 0): a handler that returns Err(NoError) with extended text -- still a failure
         let exp_out = bytes_from_json(&c["out"]);
         if history {
             // C02: whatever message preceded, the next one starts again at the root
